@@ -491,6 +491,37 @@ func ruleRDefer(p *Program, r *Reporter) {
 		return
 	}
 	n := 0
+	region := p.PrivateRegion(hd)
+	var helperRearms func(g *ssa.Function, depth int) (bool, bool)
+	helperRearms = func(g *ssa.Function, depth int) (setTrue, cleared bool) {
+		if depth > 3 || g == connect {
+			return
+		}
+		for _, b := range g.Blocks {
+			for _, ins := range b.Instrs {
+				switch x := ins.(type) {
+				case *ssa.Store:
+					if fa, ok := x.Addr.(*ssa.FieldAddr); ok {
+						switch fieldOfAddr(fa) {
+						case du:
+							if cst, isC := x.Val.(*ssa.Const); isC && cst.Value != nil && cst.Value.Kind() == constant.Bool && constant.BoolVal(cst.Value) {
+								setTrue = true
+							}
+						case dus:
+							cleared = true
+						}
+					}
+				case *ssa.Call:
+					if sc := x.Call.StaticCallee(); sc != nil && region[sc] && sc != g {
+						t, c := helperRearms(sc, depth+1)
+						setTrue = setTrue || t
+						cleared = cleared || c
+					}
+				}
+			}
+		}
+		return
+	}
 	for _, fn := range append([]*ssa.Function{hd}, hd.AnonFuncs...) {
 		fc := newFlowCtx(fn)
 		for _, b := range fn.Blocks {
@@ -503,6 +534,18 @@ func ruleRDefer(p *Program, r *Reporter) {
 				setTrue, cleared := false, false
 				for _, b2 := range fn.Blocks {
 					for _, i2 := range b2.Instrs {
+						// the re-arming moved into a private helper: the call stands for its stores
+						if hc, isCall := i2.(*ssa.Call); isCall && hc != c {
+							if sc := hc.Call.StaticCallee(); sc != nil && sc != connect && region[sc] {
+								if !fc.canFollow(hc, c) || fc.canFollow(c, hc) && hc.Block() == c.Block() {
+									continue
+								}
+								t, cl := helperRearms(sc, 0)
+								setTrue = setTrue || t
+								cleared = cleared || cl
+							}
+							continue
+						}
 						st, ok := i2.(*ssa.Store)
 						if !ok {
 							continue
